@@ -178,9 +178,9 @@ theorem Pair.abort {s u : Engine} {g : Graph} (h : Pair s u g) (ops : List TxOp)
 
 /-- a compaction from a safe state -/
 theorem Pair.compact {s u : Engine} {g : Graph} (h : Pair s u g)
-    (hs : compactSafe s = true) (hf : freshNodeKeys s = true) : Pair (s.compact Cfg.current) u g := by
+    (hs : compactSafe s = true) : Pair (s.compact Cfg.current) u g := by
   obtain ⟨hR, hQ⟩ := Rec.compact Cfg.current h.recv h.quiet h.base
-  refine ⟨compact_eqv Cfg.current (by decide) h.eqv hs hf, h.sim, hR, hQ, h.segs.compact Cfg.current, ?_⟩
+  refine ⟨compact_eqv Cfg.current (by decide) h.eqv hs, h.sim, hR, hQ, h.segs.compact Cfg.current, ?_⟩
   have : (s.compact Cfg.current).idmap = s.idmap := by unfold Engine.compact; split <;> rfl
   rw [this]; exact h.base
 
@@ -254,11 +254,11 @@ theorem Pair.close {s u : Engine} {g : Graph} (h : Pair s u g) :
 
 /-- the decidable side conditions of the checkpoint theorem (they run the model): transactions hold no
     label operations and leave no removal over a store value; every compaction starts from a
-    `compactSafe` state with fresh node keys; every reopen / close succeeds -/
+    `compactSafe` state; every reopen / close succeeds -/
 def ckptHistSafe (c : Cfg) : Engine → List Op → Bool
   | _, [] => true
   | s, .tx ops b :: h => txNoLabelOps ops && removalsClear (runTx c s ops b) && ckptHistSafe c (runTx c s ops b) h
-  | s, .compact :: h => compactSafe s && freshNodeKeys s && ckptHistSafe c (s.compact c) h
+  | s, .compact :: h => compactSafe s && ckptHistSafe c (s.compact c) h
   | s, .reopen :: h => match s.reopen with
     | .ok s' => ckptHistSafe c s' h
     | .error _ => false
@@ -310,7 +310,7 @@ theorem hist_pair : ∀ (h : List Op) (s u : Engine) (g : Graph), Pair s u g →
       simp only [wfFrom] at hwf
       simp only [histSize] at hb
       simp only [anyCommitted] at t1 t2 t3 t4
-      have hP' := hP.compact hs.1.1 hs.1.2
+      have hP' := hP.compact hs.1
       obtain ⟨s', u', h1, h2, h3⟩ := ih _ _ _ hP' hs.2 hwf hb t1 t2 t3 t4
       refine ⟨s', u', by rw [List.foldlM_cons]; exact h1, ?_, h3⟩
       show ((Op.compact :: h).filter isTxOp).foldlM (runOp Cfg.current) u = _
